@@ -129,7 +129,7 @@ def run_modes(ctx, model, make_src, case, expected, fault=None):
                 ctx.violation("C06:fault-wrong-error:%s" % fault["kind"], dict(case, mode=mode), "malformed container ended in another error than DataFormatError",
                               expected="DataFormatError", observed=gen.snapshot(obs.raised))
                 return
-        if expected["run"] is not None and fault.get("prefix_rows") is not None:
+        if expected["run"] is not None and fault.get("prefix_rows") is not None and not fault.get("may_be_benign"):
             exp = [e for e in expected["run"]["items"] if True][: fault["prefix_rows"]]
             got = y.items
             if fault.get("deterministic_prefix", True):
@@ -183,14 +183,15 @@ def fault_cases(ctx, index):
         table = [r for r in table if r != []] or [["a"] * len(model.fields)]
         for k in range(len(table)):
             broken = [list(r) for r in table]
-            text_rows = storage.delimited_text(broken[:k]) + '"unterminated' + ",x" * (len(model.fields) - 1) + "\r\n" + storage.delimited_text(broken[k + 1 :])
+            rest = storage.delimited_text(broken[k + 1 :], model.quote, model.escape)
+            text_rows = storage.delimited_text(broken[:k], model.quote, model.escape) + model.quote + "unterminated" + ",x" * (len(model.fields) - 1) + "\r\n" + rest
             fault = {"kind": "unterminated-quote", "row": k + 1, "prefix_rows": max(0, k - model.header),
-                     "may_be_benign": '"' in storage.delimited_text(broken[k + 1 :])}
+                     "may_be_benign": model.quote in rest or model.escape in rest}
             check_fault_text(ctx, model, store, text_rows, table[:k], fault)
         if store == "delimited-file":
             for k in range(len(table)):
                 for enc in ("utf-8", "ascii"):
-                    data = storage.delimited_text(table[:k]).encode("utf-8") + b"ab\xffcd" + b",x" * (len(model.fields) - 1) + b"\r\n" + storage.delimited_text(table[k + 1 :]).encode("utf-8")
+                    data = storage.delimited_text(table[:k], model.quote, model.escape).encode("utf-8") + b"ab\xffcd" + b",x" * (len(model.fields) - 1) + b"\r\n" + storage.delimited_text(table[k + 1 :], model.quote, model.escape).encode("utf-8")
                     if enc == "ascii" and any(ord(ch) > 127 for r in table[:k] for cell in r for ch in cell):
                         continue
                     fault = {"kind": "undecodable-byte", "row": k + 1, "encoding": enc, "prefix_rows": max(0, k - model.header), "deterministic_prefix": False}
